@@ -31,6 +31,7 @@ type fuzzSpec struct {
 	Fail      float64  `json:"fail"`     // weight of connection failures
 	MaxCmds   int      `json:"maxCmds"`
 	Fair      bool     `json:"fair"`     // after the random part: heal everything and continue with a fair schedule (C17 b)
+	Transfer  float64  `json:"transfer"` // weight of leadership-transfer requests (and of their timers)
 	CrashPts  float64  `json:"crashPts"` // weight of arming a crash point inside a later storage-mutating step
 	Name      string   `json:"name"`
 }
@@ -166,6 +167,27 @@ func (c *simCluster) fuzzChoices(f *fuzzSpec, rng *rand.Rand, cmds *int, cfgReqs
 				}
 				if !c.eager.Poll && len(sr.r.leaderUpdateCh) > 0 {
 					add(5, simStep{K: "replPoll", I: id, J: j})
+				}
+			}
+			if f.Transfer > 0 {
+				tr := &n.l.transfer
+				if !tr.inProgress() {
+					// any target (0), a member, or occasionally something that is not a legal target
+					tgt := uint64(0)
+					switch rng.Intn(4) {
+					case 1, 2:
+						tgt = c.ids[rng.Intn(len(c.ids))]
+					case 3:
+						if rng.Intn(3) == 0 {
+							tgt = 99
+						}
+					}
+					add(f.Transfer, simStep{K: "task", N: id, Task: "transfer", Arg: map[string]interface{}{"target": float64(tgt)}})
+				} else {
+					add(0.3, simStep{K: "xferTimeout", N: id})
+					if tr.newTermTimer.active {
+						add(2, simStep{K: "newTermTimeout", N: id})
+					}
 				}
 			}
 			if f.Reconfig > 0 && *cfgReqs < 6 {
